@@ -19,7 +19,7 @@ import (
 func init() {
 	Register("C03", &Info{
 		Run:   runC03,
-		Quick: 7200, Thor: 240000,
+		Quick: 7200, Thor: 1000000,
 		Rule: "a world = one predefined parrot (all of them by run index) x server-name shape (legal host name, empty, IP literal, trailing dot, long) x one real connection (plain, HelloRetryRequest-forcing, optionally the second connection of a resumption history; in 30% of the worlds preceded by explicit BuildHandshakeStateWithoutSession and/or BuildHandshakeState calls); the hello from the wire is compared with UTLSIdToSpec(id) by the harness's own decoders: legacy_version = min(spec max, TLS 1.2), cipher suites and compression equal (GREASE at the spec's positions), extension type sequence equal (shuffling Chrome parrots: equal multiset with GREASE, padding and pre_shared_key at their spec positions), every extension body equal to the spec's fields, modulo the listed per-connection material; presence rules: server_name absent iff the configured name is not a legal host_name, padding per policy, pre_shared_key absent iff no session is offered and OmitEmptyPsk is set; non-trivial = predefined parrot hello on the wire; distinct = (parrot, extension permutation, server-name shape)",
 		Assumptions: []string{"the parrot specs returned by UTLSIdToSpec are the definition of the expected shape (inherent in the property); the mapping from spec extension types to wire extension numbers and the body encodings are harness tables from the RFCs",
 			"no schedule is involved (DESIGN 0)"},
